@@ -352,6 +352,20 @@ fn access_matrix(e: &mut Eng, thorough: bool) {
         ops.extend([PUSH(len as i64), SHA2]);
         e.run(&single(&ops, &base), JudgeOpts { mapped: false, lockstep: true }, "access-matrix");
     }
+    // too few operands for every access / crypto op
+    for op in [PEX, DATA, DLEN, SHA2, VRFYED, RSECP, THIS, THISC, DSLT] {
+        for n in [0usize, 1, 3] {
+            if e.mine() {
+                let mut ops: Vec<Op> = (0..n).map(|i| PUSH(i as i64)).collect();
+                ops.push(op);
+                e.run(&single(&ops, &base), JudgeOpts { mapped: false, lockstep: true }, "access-matrix");
+                // and with a full stack (pushes must fail)
+                let mut c = single(&[op], &base);
+                c.stack = vec![0; 4096 - n];
+                e.run(&c, JudgeOpts { mapped: false, lockstep: true }, "access-matrix");
+            }
+        }
+    }
     for l in [-1i64, i64::MAX, i64::MIN, 1 << 40] {
         if e.mine() {
             e.run(&single(&[PUSH(1), PUSH(l), SHA2], &base), JudgeOpts { mapped: false, lockstep: true }, "access-matrix");
